@@ -1,1 +1,282 @@
-/- C20 — property theorems (stub: not built yet) -/
+import Rivaas.Spec.Log
+/-
+C20 — Logs are redacted and not lost. Property theorems.
+
+Part 1 (this section): redaction, for every handler type, every user replacer, every derivation
+chain (`With` / `WithGroup` in any order and depth) and every attribute tree.
+-/
+namespace Rivaas.C20
+open Rivaas.Log
+
+/-- how an output value relates to the input attribute it came from -/
+def Prov (k v out : Bytes) : Prop :=
+  (k ∈ sensitive ∧ out = redactedVal) ∨ (k ∉ sensitive ∧ out = v)
+
+/-! ### helper lemmas -/
+
+theorem lemma_replace (u : UserRep) (groups : List Bytes) (k v : Bytes) (kv : Bytes × Bytes)
+    (h : replaceAttr u groups k v = some kv) : kv.1 = k ∧ Prov k v kv.2 := by
+  unfold replaceAttr at h
+  by_cases hs : k ∈ sensitive
+  · simp only [hs, if_true, Option.some.injEq] at h
+    subst h
+    exact ⟨rfl, Or.inl ⟨hs, rfl⟩⟩
+  · simp only [hs, if_false] at h
+    cases u with
+    | none =>
+      simp only [Option.some.injEq] at h
+      subst h
+      exact ⟨rfl, Or.inr ⟨hs, rfl⟩⟩
+    | dropTop d =>
+      simp only at h
+      split at h
+      · cases h
+      · simp only [Option.some.injEq] at h
+        subst h
+        exact ⟨rfl, Or.inr ⟨hs, rfl⟩⟩
+    | dropAny d =>
+      simp only at h
+      split at h
+      · cases h
+      · simp only [Option.some.injEq] at h
+        subst h
+        exact ⟨rfl, Or.inr ⟨hs, rfl⟩⟩
+
+theorem lemma_key_concat (g : List Bytes) (k v : Bytes) : Pair.key (g ++ [k], v) = some k := by
+  simp [Pair.key]
+
+/-- the provenance of an output pair inside a list of input attributes -/
+def From (leaves : List (Bytes × Bytes)) (p : Pair) : Prop :=
+  ∃ kv ∈ leaves, Pair.key p = some kv.1 ∧ Prov kv.1 kv.2 p.2
+
+theorem lemma_from_mono {l l' : List (Bytes × Bytes)} {p : Pair} (hsub : ∀ x ∈ l, x ∈ l') (h : From l p) :
+    From l' p := by
+  obtain ⟨kv, hm, hk⟩ := h
+  exact ⟨kv, hsub kv hm, hk⟩
+
+/-! slog's handlers -/
+mutual
+  theorem lemma_slogAttr : ∀ (u : UserRep) (groups : List Bytes) (a : Attr) (p : Pair),
+      p ∈ slogAttr u groups a → From (leavesOf a) p
+    | u, groups, .leaf k v, p, h => by
+      simp only [slogAttr] at h
+      split at h
+      · rename_i k' v' heq
+        simp only [List.mem_singleton] at h
+        subst h
+        have := lemma_replace u groups k v (k', v') heq
+        refine ⟨(k, v), by simp [leavesOf], ?_, this.2⟩
+        simp only at this
+        rw [lemma_key_concat, this.1]
+      · cases h
+    | u, groups, .group k as, p, h => by
+      simp only [slogAttr] at h
+      simpa [leavesOf] using lemma_slogAttrs u _ as p h
+  theorem lemma_slogAttrs : ∀ (u : UserRep) (groups : List Bytes) (as : List Attr) (p : Pair),
+      p ∈ slogAttrs u groups as → From (leavesOfAll as) p
+    | _, _, [], p, h => by simp [slogAttrs] at h
+    | u, groups, a :: as, p, h => by
+      simp only [slogAttrs, List.mem_append] at h
+      rcases h with h | h
+      · exact lemma_from_mono (by intro x hx; simp [leavesOfAll, hx]) (lemma_slogAttr u groups a p h)
+      · exact lemma_from_mono (by intro x hx; simp [leavesOfAll, hx]) (lemma_slogAttrs u groups as p h)
+end
+
+theorem lemma_slogChain (u : UserRep) (groups : List Bytes) (chain : List ChainOp) (call : List Attr)
+    (p : Pair) (h : p ∈ slogChain u groups chain call) : From (chainLeaves chain ++ leavesOfAll call) p := by
+  induction chain generalizing groups with
+  | nil => simpa [slogChain, chainLeaves] using lemma_slogAttrs u groups call p h
+  | cons op rest ih =>
+    cases op with
+    | withAttrs as =>
+      simp only [slogChain, List.mem_append] at h
+      rcases h with h | h
+      · exact lemma_from_mono (by intro x hx; simp [chainLeaves, hx]) (lemma_slogAttrs u groups as p h)
+      · exact lemma_from_mono (by intro x hx; simp only [chainLeaves, List.append_assoc, List.mem_append] at hx ⊢; right; exact hx)
+          (ih groups h)
+    | withGroup n =>
+      simp only [slogChain] at h
+      simpa [chainLeaves] using ih _ h
+
+/-! the console handler: printing does not invent or change values … -/
+mutual
+  theorem lemma_print : ∀ (pre : List Bytes) (a : Attr) (p : Pair),
+      p ∈ consolePrint pre a → ∃ kv ∈ leavesOf a, Pair.key p = some kv.1 ∧ p.2 = kv.2
+    | pre, .leaf k v, p, h => by
+      simp only [consolePrint, List.mem_singleton] at h
+      subst h
+      exact ⟨(k, v), by simp [leavesOf], lemma_key_concat pre k v, rfl⟩
+    | pre, .group k as, p, h => by
+      simp only [consolePrint] at h
+      simpa [leavesOf] using lemma_printAll _ as p h
+  theorem lemma_printAll : ∀ (pre : List Bytes) (as : List Attr) (p : Pair),
+      p ∈ consolePrintAll pre as → ∃ kv ∈ leavesOfAll as, Pair.key p = some kv.1 ∧ p.2 = kv.2
+    | _, [], p, h => by simp [consolePrintAll] at h
+    | pre, a :: as, p, h => by
+      simp only [consolePrintAll, List.mem_append] at h
+      rcases h with h | h
+      · obtain ⟨kv, hm, hk⟩ := lemma_print pre a p h
+        exact ⟨kv, by simp [leavesOfAll, hm], hk⟩
+      · obtain ⟨kv, hm, hk⟩ := lemma_printAll pre as p h
+        exact ⟨kv, by simp [leavesOfAll, hm], hk⟩
+end
+
+/-- … and every attribute that survives `consoleReplace` is an input attribute after ReplaceAttr -/
+def Repl (leaves : List (Bytes × Bytes)) (out : Bytes × Bytes) : Prop :=
+  ∃ kv ∈ leaves, out.1 = kv.1 ∧ Prov kv.1 kv.2 out.2
+
+mutual
+  theorem lemma_creplace : ∀ (u : UserRep) (groups : List Bytes) (a a' : Attr),
+      consoleReplace u groups a = some a' → ∀ out ∈ leavesOf a', Repl (leavesOf a) out
+    | u, groups, .leaf k v, a', h, out, ho => by
+      simp only [consoleReplace, Option.map_eq_some_iff] at h
+      obtain ⟨kv, hr, rfl⟩ := h
+      simp only [leavesOf, List.mem_singleton] at ho
+      subst ho
+      have := lemma_replace u groups k v kv hr
+      exact ⟨(k, v), by simp [leavesOf], this.1, this.2⟩
+    | u, groups, .group k as, a', h, out, ho => by
+      simp only [consoleReplace, Option.some.injEq] at h
+      subst h
+      simp only [leavesOf] at ho ⊢
+      exact lemma_creplaceAll u _ as out ho
+  theorem lemma_creplaceAll : ∀ (u : UserRep) (groups : List Bytes) (as : List Attr),
+      ∀ out ∈ leavesOfAll (consoleReplaceAll u groups as), Repl (leavesOfAll as) out
+    | _, _, [], out, ho => by simp [consoleReplaceAll, leavesOfAll] at ho
+    | u, groups, a :: as, out, ho => by
+      simp only [consoleReplaceAll] at ho
+      split at ho
+      · rename_i a' heq
+        simp only [leavesOfAll, List.mem_append] at ho
+        rcases ho with ho | ho
+        · obtain ⟨kv, hm, hk⟩ := lemma_creplace u groups a a' heq out ho
+          exact ⟨kv, by simp [leavesOfAll, hm], hk⟩
+        · obtain ⟨kv, hm, hk⟩ := lemma_creplaceAll u groups as out ho
+          exact ⟨kv, by simp [leavesOfAll, hm], hk⟩
+      · obtain ⟨kv, hm, hk⟩ := lemma_creplaceAll u groups as out ho
+        exact ⟨kv, by simp [leavesOfAll, hm], hk⟩
+end
+
+theorem lemma_console_printed (u : UserRep) (groups pre : List Bytes) (as : List Attr) (p : Pair)
+    (h : p ∈ consolePrintAll pre (consoleReplaceAll u groups as)) : From (leavesOfAll as) p := by
+  obtain ⟨out, hm, hk, hv⟩ := lemma_printAll pre _ p h
+  obtain ⟨kv, hm', hk', hp⟩ := lemma_creplaceAll u groups as out hm
+  exact ⟨kv, hm', by rw [hk, hk'], by rw [hv]; exact hp⟩
+
+/-- invariant of the console handler's bound attributes along a derivation chain -/
+theorem lemma_consoleChain (u : UserRep) (h : Console) (chain : List ChainOp) (L : List (Bytes × Bytes))
+    (hinv : ∀ p ∈ consolePrintAll [] h.attrs, From L p) :
+    ∀ p ∈ consolePrintAll [] (consoleChain u h chain).attrs, From (L ++ chainLeaves chain) p := by
+  induction chain generalizing h L with
+  | nil => intro p hp; exact lemma_from_mono (by intro x hx; simp [hx]) (hinv p hp)
+  | cons op rest ih =>
+    cases op with
+    | withAttrs as =>
+      intro p hp
+      simp only [consoleChain] at hp
+      have := ih { h with attrs := h.attrs ++ consoleReplaceAll u h.groups as } (L ++ leavesOfAll as) (by
+        intro q hq
+        have hsplit : ∀ (xs ys : List Attr), consolePrintAll [] (xs ++ ys) = consolePrintAll [] xs ++ consolePrintAll [] ys := by
+          intro xs ys
+          induction xs with
+          | nil => simp [consolePrintAll]
+          | cons x xs ihx => simp [consolePrintAll, ihx]
+        simp only [hsplit, List.mem_append] at hq
+        rcases hq with hq | hq
+        · exact lemma_from_mono (by intro x hx; simp [hx]) (hinv q hq)
+        · exact lemma_from_mono (by intro x hx; simp [hx]) (lemma_console_printed u h.groups [] as q hq)) p hp
+      simpa [chainLeaves, List.append_assoc] using this
+    | withGroup n =>
+      intro p hp
+      simp only [consoleChain] at hp
+      have := ih (if n.isEmpty then h else { h with groups := h.groups ++ [n] }) L (by
+        intro q hq
+        split at hq <;> exact hinv q hq) p hp
+      simpa [chainLeaves] using this
+
+/-! ### the property -/
+
+/-- **Provenance.** Whatever handler type, user replacer, derivation chain and attribute trees: every
+    `key=value` that reaches the output comes from an input attribute with that key, and its value
+    is the marker if the key is sensitive and the attribute's own value otherwise. -/
+theorem provenance (c : Case) (p : Pair) (h : p ∈ emit c) : From (inputLeaves c) p := by
+  unfold emit at h
+  have hslog : p ∈ slogChain c.user [] (.withAttrs c.root :: c.chain) c.call → From (inputLeaves c) p := by
+    intro h
+    have := lemma_slogChain c.user [] _ c.call p h
+    simpa [chainLeaves, inputLeaves, List.append_assoc] using this
+  cases hh : c.h with
+  | json => rw [hh] at h; exact hslog h
+  | text => rw [hh] at h; exact hslog h
+  | console =>
+    rw [hh] at h
+    simp only [consoleHandle, List.mem_append] at h
+    rcases h with h | h
+    · have := lemma_consoleChain c.user {} (.withAttrs c.root :: c.chain) [] (by
+        intro q hq; simp [consolePrintAll] at hq) p h
+      exact lemma_from_mono (by intro x hx; simp only [chainLeaves, List.nil_append] at hx; simp only [inputLeaves, List.mem_append] at hx ⊢; rcases hx with hx | hx <;> simp [hx]) this
+    · exact lemma_from_mono (by intro x hx; simp [inputLeaves, hx]) (lemma_console_printed c.user _ [] c.call p h)
+
+/-- **Redaction** (the statement's first sentence): a pair printed under a sensitive key shows the
+    marker, for JSON, text and console, however the attribute reached the record. -/
+theorem redacted (c : Case) (p : Pair) (h : p ∈ emit c) (k : Bytes) (hk : Pair.key p = some k)
+    (hs : k ∈ sensitive) : p.2 = redactedVal := by
+  obtain ⟨kv, _, hk', hp⟩ := provenance c p h
+  rw [hk] at hk'
+  cases hk'
+  rcases hp with ⟨_, h2⟩ | ⟨h1, _⟩
+  · exact h2
+  · exact absurd hs h1
+
+/-- the model passes the executable oracle the driver applies to the implementation's output -/
+theorem emit_meets_spec (c : Case) : (emit c).all pairOK = true := by
+  rw [List.all_eq_true]
+  intro p hp
+  unfold pairOK
+  split
+  · rename_i k hk
+    split
+    · rename_i hs
+      simp [redacted c p hp k hk hs]
+    · rfl
+  · rfl
+
+/-- **No sensitive value in the output**: every value that appears, other than the marker, is the value
+    of an attribute whose key is *not* sensitive. -/
+theorem sensitive_value_never_emitted (c : Case) (p : Pair) (h : p ∈ emit c) (hne : p.2 ≠ redactedVal) :
+    ∃ kv ∈ inputLeaves c, kv.1 ∉ sensitive ∧ kv.2 = p.2 := by
+  obtain ⟨kv, hm, _, hp⟩ := provenance c p h
+  rcases hp with ⟨_, h2⟩ | ⟨h1, h2⟩
+  · exact absurd h2 hne
+  · exact ⟨kv, hm, h1, h2.symm⟩
+
+/-- buffering is transparent for what is printed (K20b/K20d repaired: a buffered record is replayed
+    through the handler it was logged through) -/
+theorem buffering_transparent (c : Case) : emit { c with buffered := true } = emit { c with buffered := false } := rfl
+
+/-! ### non-vacuity and as-shipped witnesses -/
+
+def wPw : Attr := .leaf "password".toList "hunter2".toList
+def wUser : Attr := .leaf "user".toList "bob".toList
+def wCase (h : HType) : Case :=
+  { h := h, user := .none, root := [], chain := [.withAttrs [.leaf "token".toList "T1".toList], .withGroup "g".toList],
+    call := [wPw, wUser, .group "h".toList [.leaf "api_key".toList "K1".toList]] }
+
+/-- the hypotheses of `redacted` are met: three sensitive pairs are printed by each handler type -/
+example : ((emit (wCase .json)).filter fun p => decide (p.2 = redactedVal)).length = 3 := by decide
+example : ((emit (wCase .console)).filter fun p => decide (p.2 = redactedVal)).length = 3 := by decide
+example : (["g".toList, "user".toList], "bob".toList) ∈ emit (wCase .text) := by decide
+example : (["user".toList], "bob".toList) ∈ emit (wCase .console) := by decide
+
+/-- K20a, as shipped: the console handler prints `password=hunter2` -/
+theorem console_asis_leaks :
+    (["password".toList], "hunter2".toList) ∈ emitAsIs (wCase .console) ∧ ¬ (emitAsIs (wCase .console)).all pairOK = true := by
+  decide
+
+/-- K20d, as shipped: a record logged through `With(...)` while buffering loses the bound attribute -/
+theorem buffered_asis_drops_bound_attrs :
+    (["token".toList], redactedVal) ∈ emitAsIs (wCase .json) ∧
+    (["token".toList], redactedVal) ∉ emitAsIs { wCase .json with buffered := true } := by
+  decide
+
+end Rivaas.C20
